@@ -162,6 +162,27 @@ def pred_views(ops, impl):
                     exp = "ok"
                 else:
                     exp = "panic"
+            elif t[0] == "vseq":
+                if not rw:
+                    exp = "panic"
+                else:
+                    outs = []
+                    for sub in t[3:]:
+                        f = sub.split(":")
+                        if f[0] == "g":
+                            v = raw.get(pfx + unhex(f[1]))
+                            outs.append("none" if v is None else "some " + hx(v))
+                        elif f[0] == "s":
+                            raw[pfx + unhex(f[1])] = unhex(f[2])
+                            outs.append("ok")
+                        elif f[0] == "r":
+                            raw.pop(pfx + unhex(f[1]), None)
+                            outs.append("ok")
+                        else:
+                            win = {k[len(pfx):]: v for k, v in raw.items() if k.startswith(pfx)}
+                            rs = omap_range(win, unhex_opt(f[1]), unhex_opt(f[2]), f[3])
+                            outs.append(fmt(rs) if f[0] == "R" else "[" + ",".join(hx(r[0 if f[0] == "K" else 1]) for r in rs) + "]")
+                    exp = "|".join(outs)
             elif t[0] == "vrange":
                 win = {k[len(pfx):]: v for k, v in raw.items() if k.startswith(pfx)}
                 exp = fmt(omap_range(win, unhex_opt(t[3]), unhex_opt(t[4]), t[5]))
